@@ -5,6 +5,8 @@ points, evaluation of library results.
 """
 from __future__ import annotations
 
+import math
+
 from fractions import Fraction as F
 
 from hypothesis import strategies as st
@@ -201,6 +203,51 @@ def classify_pair(ca, cb):
                         if not rg.curve_clear(Y, p, MIN_VERTEX_REL * size):
                             return "ill", ncross
     return verdict, ncross
+
+
+ABS_POINT_TOL = 1e-6  # PlanarCurve.__contains__ of the library (absolute)
+
+
+def _pt_seg_dist(v, a, b):
+    dx, dy = b[0] - a[0], b[1] - a[1]
+    L = dx * dx + dy * dy
+    t = 0.0 if L == 0 else max(0.0, min(1.0, ((v[0] - a[0]) * dx + (v[1] - a[1]) * dy) / L))
+    return math.hypot(a[0] + t * dx - v[0], a[1] + t * dy - v[1])
+
+
+def abs_near_contact(ca, cb, factor=2.0):
+    """exact polygons in general position of which a vertex (or a crossing
+    point) comes closer than the library's *absolute* point-on-curve
+    tolerance to the other boundary / to another crossing point without
+    touching it: drawings in small units.  Floats are enough here (the
+    threshold is 2e-6, the data of size >= 1e-4)."""
+    tol = factor * ABS_POINT_TOL
+    for A in ca:
+        for B in cb:
+            if not (rg.curve_is_polygon(A) and rg.curve_is_polygon(B)):
+                continue
+            fa = [(rg.fl(sg[0]), rg.fl(sg[1])) for sg in A]
+            fb = [(rg.fl(sg[0]), rg.fl(sg[1])) for sg in B]
+            ba, bb = rg.curve_box(A), rg.curve_box(B)
+            if not rg._boxes_overlap([float(x) for x in ba], [float(x) for x in bb], pad=tol):
+                continue
+            for X, Y in ((fa, fb), (fb, fa)):
+                for (v, _) in X:
+                    for (a, b) in Y:
+                        d = _pt_seg_dist(v, a, b)
+                        if 0 < d < tol:
+                            return True
+            crossings = []
+            for sg in A:
+                for sh in B:
+                    r = rg.segments_intersect_exact(rg.exp(sg[0]), rg.exp(sg[1]), rg.exp(sh[0]), rg.exp(sh[1]))
+                    if r is not None and r[0] == "point":
+                        crossings.append(rg.fl(r[3]))
+            for i in range(len(crossings)):
+                for j in range(i + 1, len(crossings)):
+                    if 0 < rg.dist(crossings[i], crossings[j]) < tol:
+                        return True
+    return False
 
 
 def _same_curve(A, B):
